@@ -175,6 +175,8 @@ def main(tier):
     if meta:
         x = next(iter(meta.values()))
         chk.sample({"doc": x[0]["doc"], "expected_children": schema_projection(x[0]["cat"][0])})
+    import typegraph
+    typegraph.run(chk, tier, "C12")
     chk.rule = ("valid TLC-generated documents that use allOf (types and message bodies); for each: children of every schema "
                 "(key, inheritedFrom, token type, type) in order; plus override / non-object base / undefined base variants")
     chk.assumptions += ["diamonds (a key inherited twice) are outside the generated fragment: the statement leaves their position open",
@@ -185,6 +187,10 @@ def main(tier):
 def replay(path):
     rp = json.load(open(path))["replay"]
     chk = Check("C12", "quick")
+    if rp.get("kind") == "typegraph":
+        import typegraph
+        typegraph.replay(chk, "C12", rp)
+        return chk.finish()
     chk.evaluations = 1
     o = harness("run", [rel.case("a", rp["file"])])["a"]
     print("now:", rel.describe(o))
